@@ -124,6 +124,8 @@ type Knobs struct {
 	SnapCount  uint64 `json:"snap_count"`
 	CatchUpN   uint64 `json:"catch_up_n"`
 	SegmentKiB int    `json:"segment_kib"`
+	// Nondet: the clients also issue random-choice and auto-id commands (nondet.go)
+	Nondet bool `json:"nondet,omitempty"`
 	// LargeValues: the clients' values are several hundred KB each (fault-free runs)
 	LargeValues bool `json:"large_values,omitempty"`
 	MaxSteps   int    `json:"max_steps"`
